@@ -627,6 +627,11 @@ def search(hints, tier, rng):
             for kind in ("Normal.scale", "StudentT.df", "Exponential.rate"):
                 add(chk_roundtrip(kind, v, dt))
             add(chk_roundtrip("Uniform", (0.0, v), dt))
+        # weight-normalised rows far below machine epsilon (still non-zero): the row norm must stay the scale parameter — a
+        # "division guard" `max(norm, eps)` silently breaks it
+        tiny = 1e-18 if dt == "f64" else 1e-9
+        add(chk_weightnorm([[3 * tiny, -4 * tiny], [1.0, 2.0]], [0.3, -0.2], dt))
+        add(chk_weightnorm([[tiny]], [1.5], dt))
         n_it = 60 if q else 600
         for it in range(n_it):
             d = rng.choice([1, 2, 3, 5])
